@@ -29,7 +29,7 @@ package service
 // Service-side verification of an AP-REQ (property C01): success implies every clause of the statement, and the
 // identity handed to the application is the one sealed in the ticket.
 //@ func service.VerifyAPREQ(APReq, s) (ok, creds, err)
-//@   havocs lastIsReplay, lastPACBad
+//@   havocs lastIsReplay, lastPACBad, adSetCount, adLogOn, adLogOff, adPwdLastSet, adUserID, adPrimaryGroupID, adEffectiveName, adFullName, adLogonServer, adLogonDomainName
 //@   sets apreqAccepted := ok
 //@   sets apreqCreds := ref(creds)
 //@   ensures ok ==> err == nil && creds != nil
@@ -50,6 +50,14 @@ package service
 //@   ensures ok ==> !lastIsReplay
 //@   ensures ok && !s.disablePACDecoding ==> !lastPACBad
 //@   ensures creds == nil && krberr(err, 34) ==> lastIsReplay
+// Attributes handed to the application are those of the PAC just verified (pac is the local holding it; the ghost
+// count changes only on the path that has one): times, ids and names field by field.
+//@   ensures ok && adSetCount != old(adSetCount) ==> adLogOn == filetime(int(pac.KerbValidationInfo.LogOnTime.LowDateTime), int(pac.KerbValidationInfo.LogOnTime.HighDateTime))
+//@        && adLogOff == filetime(int(pac.KerbValidationInfo.LogOffTime.LowDateTime), int(pac.KerbValidationInfo.LogOffTime.HighDateTime))
+//@        && adPwdLastSet == filetime(int(pac.KerbValidationInfo.PasswordLastSet.LowDateTime), int(pac.KerbValidationInfo.PasswordLastSet.HighDateTime))
+//@        && adUserID == int(pac.KerbValidationInfo.UserID) && adPrimaryGroupID == int(pac.KerbValidationInfo.PrimaryGroupID)
+//@        && adEffectiveName == pac.KerbValidationInfo.EffectiveName.Value && adFullName == pac.KerbValidationInfo.FullName.Value
+//@        && adLogonServer == pac.KerbValidationInfo.LogonServer.Value && adLogonDomainName == pac.KerbValidationInfo.LogonDomainName.Value
 // Completeness direction: refusal always carries an error, and a refusal before the identity is built carries an
 // RFC 4120 error code only when that code's condition holds (skew is the configured or default five minutes).
 //@   ensures !ok ==> err != nil
